@@ -17,6 +17,10 @@ import (
 	"pgregory.net/rapid"
 
 	"verif/harness/ev"
+	"verif/harness/obs"
+	"verif/harness/spsim"
+	"verif/harness/world"
+	"verif/harness/xt"
 )
 
 var (
@@ -248,13 +252,60 @@ func genC16Case(t *rapid.T) C16Case {
 	return c
 }
 
-// TestC16 is the generated (and replay) entry point: lists up to length 6, beyond the enumerated bound.
+// c16EndToEnd sends a valid AuthnRequest from an SP registered with this ACS list (index and isDefault travel
+// as XML attributes of the metadata) and compares the pair handed to storage with the reference selection.
+func c16EndToEnd(c C16Case) *ev.Violation {
+	sp := stdSP(0)
+	sp.ACS = nil
+	for _, e := range c.ACS {
+		d := e.IsDefault
+		if d == "" {
+			d = A
+		}
+		sp.ACS = append(sp.ACS, world.ACSSpec{Binding: e.Binding, Location: e.Location, Index: e.Index, IsDefault: d})
+	}
+	spec := world.Spec{IdP: world.DefaultIdP(), SPs: []world.SPSpec{sp}, Users: []world.UserSpec{stdUser(0)}}
+	w := mustBuild(spec)
+	a := spsim.NewAuthnReq("_c16", sp.EntityID)
+	if c.Requested != "" {
+		a.ProtocolBinding = c.Requested
+	}
+	hr, _, err := spsim.Encode(spec.IdP.Route("sso"), xt.Write(a.Tree(plainStyle), plainStyle.W), spsim.Transport{Binding: "post", Plus: true, Encoding: A, RelayState: "rs"}, nil)
+	if err != nil {
+		panic("harness: " + err.Error())
+	}
+	rep := obs.Do(w.Handler, hr)
+	if rep.Panic != "" {
+		return ev.V("C16/panic", "handler panicked: %s", short(rep.Panic, 100))
+	}
+	want := c16Reference(c.ACS, c.Requested)
+	okCalls, _ := createCalls(w)
+	answerable := len(want) > 0 && (c.ACS[want[0]].Binding == provider.PostBinding || c.ACS[want[0]].Binding == provider.RedirectBinding)
+	if !answerable {
+		if len(okCalls) > 0 {
+			return ev.V("C16/end-to-end-persisted-unselectable", "the reference selects %v (not answerable) but the request was persisted with (%q, %q)", want, okCalls[0].Args[0], okCalls[0].Args[1])
+		}
+		return nil
+	}
+	if len(okCalls) != 1 {
+		return ev.V("C16/end-to-end-not-accepted", "valid request, reference selects entry %v, but %d requests were persisted (status %d)", want, len(okCalls), rep.Status)
+	}
+	for _, i := range want {
+		if c.ACS[i].Location == okCalls[0].Args[0] && c.ACS[i].Binding == okCalls[0].Args[1] {
+			return nil
+		}
+	}
+	return ev.V("C16/end-to-end-wrong-entry", "persisted (%q, %q); the statement allows entries %v of %v", okCalls[0].Args[0], okCalls[0].Args[1], want, c.ACS)
+}
+
+// TestC16 is the generated (and replay) entry point: lists up to length 6, beyond the enumerated bound,
+// through the exported function and end to end through SP metadata XML and the SSO endpoint.
 func TestC16(t *testing.T) {
 	col := ev.For("C16", "exploration", c16Rule)
 	searchRapid(t, col, genC16Case, func(c C16Case) []*ev.Violation {
 		nt := c16Nontrivial(c)
 		cls := "rapid/len" + strconv.Itoa(len(c.ACS))
-		col.Case(nt, ev.Fingerprint(c), []string{cls}, func() any { return c })
-		return []*ev.Violation{c16Check(c)}
+		col.Case(nt, ev.Fingerprint(c), []string{cls, "end-to-end"}, func() any { return c })
+		return []*ev.Violation{c16Check(c), c16EndToEnd(c)}
 	})
 }
